@@ -7,6 +7,22 @@ _A_NOTE = ('Trusted: CrossHair 0.0.110 proxy semantics and path pruning, z3 5.1.
            'before a VIOLATION is printed.')
 
 CLAIMS = {
+    'C04': dict(
+        engine='A-crosshair',
+        technique='bounded symbolic execution of the real code (CrossHair + z3) against a closure-based reference model of functools.partial with per-call factories',
+        text=('For three callables (keyword slots + **kwargs; positional-only + positional-or-keyword + *args; a class), '
+              'every assignment of 13 nesting kinds (value, Config, ArgFactory, ArgFactory in list / dict / nested tuple, '
+              'ArgFactory of ArgFactory, ArgFactory of Config, Partial holding ArgFactory and Config, factory-free '
+              'container, one ArgFactory instance twice, two equal ArgFactory instances, argument-less ArgFactory '
+              'instances) to the argument slots in the cube list, the Partial at the root or shared three times inside '
+              'a larger configuration, and every sequence of two (thorough: three) calls each overriding a '
+              'solver-chosen subset of keywords (or appending a positional) with unbounded symbolic ints: the built '
+              'value is a functools.partial, one Partial instance builds to one callable, nested Configs are '
+              'instantiated during fdl.build and never again, each non-overridden factory is invoked exactly once per '
+              'call and overridden ones not at all, and the canonical form of the list of all call results (values, '
+              'types, aliasing within and across calls - fresh objects for factories at any depth, the very same '
+              'object for nested Configs and factory-free containers) equals that of the reference model.'),
+        note=_A_NOTE + ' CrossHair bypasses functools.lru_cache, so cache-dependent behaviour is only seen by the concrete smoke runs of the harness (13 members).'),
     'C17': dict(
         engine='A-crosshair',
         technique='bounded symbolic execution of the real code (CrossHair + z3) for the core APIs; solver-enumerated bounded families (realise-then-untrace) for the text pipelines',
